@@ -134,7 +134,7 @@ def build_unit(name):
                     raise ExtractError(f'bad slice line: {ln}')
                 for a_, b_ in subst_pairs:
                     text = text.replace(a_, b_)
-                emit(text, ('real', fname, relpath))
+                emit(text, ('real', None, relpath))
             i += 1
             u.functions.append(dict(name=fname + '#slice', src_name=fname + ' (sliced statements)', path=relpath, line=ft.start_line, sha=ft.sha,
                                     rules=['slice'], out_first=0, out_last=0, loops=0, item=True))
@@ -155,6 +155,10 @@ def build_unit(name):
 def _emit_extracted(u, target, args, block, subst, emit):
     relpath, fname = target.split('::', 1)
     ft = extract_fn(REPO, relpath, fname, impl=args.get('impl'), nth=int(args['nth']) if 'nth' in args else None)
+    src_fname = fname
+    if args.get('impl'):
+        # unique obligation name for trait-impl methods: <method>@<implementor>
+        fname = fname + '@' + re.sub(r'[^A-Za-z0-9_]', '', args['impl'].split(' for ')[-1].split('<')[0]) if ' for ' in args['impl'] else fname + '@' + re.sub(r'[^A-Za-z0-9_]+', '_', args['impl'])[:40]
     fired = set()
     sig = rule_R1_R3(ft.sig, fired)
     body = rule_R1_R3(ft.body, fired)
@@ -162,7 +166,7 @@ def _emit_extracted(u, target, args, block, subst, emit):
     if 'ret' in args:
         sig = name_return(sig, args['ret'])
     if 'rename' in args:
-        sig = re.sub(r'\bfn\s+' + re.escape(fname) + r'\b', 'fn ' + args['rename'], sig, count=1)
+        sig = re.sub(r'\bfn\s+' + re.escape(src_fname) + r'\b', 'fn ' + args['rename'], sig, count=1)
     if args.get('strip_self') == '1':
         pass
     # parse directive block
@@ -279,7 +283,7 @@ def _emit_extracted(u, target, args, block, subst, emit):
                 cur_origin = ('real', fname, relpath)
             cur_line += part
     u.lines.append(cur_line); u.origin.append(cur_origin)
-    u.functions.append(dict(name=args.get('rename', fname), src_name=fname, path=relpath, line=ft.start_line, sha=ft.sha,
+    u.functions.append(dict(name=args.get('rename', fname), src_name=src_fname, path=relpath, line=ft.start_line, sha=ft.sha,
                             rules=sorted(fired), out_first=first, out_last=len(u.lines) - 1, loops=len(loops)))
 
 TRUST_PAT = re.compile(r'\b(assume\s*\(|admit\s*\(|external_body|assume_specification|external_fn_specification|verifier::truncate|verifier::external\b)')
